@@ -150,11 +150,11 @@ def assignLegal (w : Who) (F : Facts) (D : Decls) (d : DynT) (ity : TyRef) : Boo
 /-- `typecheck.typeAssertionExpr` for a non-interface target type: for every method name of the
     operand's interface type the target must have a method (`lookupMethod`), not with a pointer
     receiver unless the target is a pointer type, with the same number of results -/
-def assertLegalY (D : Decls) (src : TyRef) (ty : TyRef) : Bool :=
+def assertLegalY (F : Facts) (D : Decls) (src : TyRef) (ty : TyRef) : Bool :=
   let ims := ifaceNamesY D src
   let chk (t : Nat) (isPtr : Bool) : Bool :=
     ims.all (fun im =>
-      match lookupMethodY D t im.1 with
+      match lookupMethodY F D t im.1 with
       | none => false
       | some h => (isPtr || !h.meth.ptr) && h.meth.sig == im.2)
   if ims.isEmpty then true else
@@ -163,9 +163,9 @@ def assertLegalY (D : Decls) (src : TyRef) (ty : TyRef) : Bool :=
   | .named t => isIfaceT D t || chk t false
   | _ => true
 
-def assertStaticLegal (w : Who) (D : Decls) (src ty : TyRef) : Bool :=
+def assertStaticLegal (w : Who) (F : Facts) (D : Decls) (src ty : TyRef) : Bool :=
   match w with
-  | .yaegi => assertLegalY D src ty
+  | .yaegi => assertLegalY F D src ty
   | .go => assertLegal D (tyMethods D src) ty
 
 def recvStatic (e : SEnv) : Recv → Option (Nat × Bool)   -- struct type, addressable
@@ -230,7 +230,7 @@ def checkStmt (w : Who) (F : Facts) (D : Decls) (e : SEnv) : Stmt → Option SEn
   | .assert x y ty _ m =>
     (match slook e y with
      | some (.ifc src) =>
-       if !assertStaticLegal w D src ty then none else
+       if !assertStaticLegal w F D src ty then none else
        let sx := tyToSTy D ty
        let ok := if m == "" then true else
          (match sx with
@@ -265,7 +265,10 @@ structure Dyn where
   deriving Repr, Inhabited
 
 inductive Clo where
-  | meth (h : MHit) (inst : Inst) (srcPtr : Bool)  -- method, the storage of its (embedded) receiver, was the receiver operand a pointer
+  /-- method; `bound = true`: `inst` is the receiver bound when the method value was made;
+      `bound = false` (interpreter before 3081633): `inst` is the storage of the (embedded) operand,
+      read when the value is called, `srcPtr`: was the receiver operand a pointer -/
+  | meth (h : MHit) (inst : Inst) (srcPtr : Bool) (bound : Bool)
   | fld (owner : Nat) (name : String)  -- a func() field
   deriving Repr, Inhabited
 
@@ -297,8 +300,10 @@ def panic (s : St) : St := { s with panicked := true }
   The interpreter (`genFunctionWrapper`, through which `getMethod` / `getMethodByName` route every
   call of an interpreted method): the receiver operand delivered by `genValueRecv` — the operand
   itself, or the last field of the index path of a promoted method, so a *pointer* exactly when the
-  operand is one (empty path) or the last field of the path is embedded by pointer — is bound to the
-  receiver slot of the new frame by one of three arms (`Facts.recvBind`). -/
+  operand is one (empty path) or the last field of the path is embedded by pointer — is bound in two
+  steps (`Facts.recvBind`): one of three arms reads it into `recv` when the wrapper is made (since
+  3081633; before, when the wrapper was called), and the callback fills the receiver slot of the new
+  frame from `recv` at every call. -/
 
 /-- the last field of a non-empty index path is embedded by pointer -/
 def lastPtr (D : Decls) : Nat → List Nat → Bool
@@ -313,18 +318,34 @@ def srcIsPtr (D : Decls) (t : Nat) (opPtr : Bool) (path : List Nat) : Bool :=
 /-- the arm of the receiver binding taken for a method with a value receiver -/
 def valueArm (F : Facts) (srcPtr : Bool) : SlotBind := if srcPtr then F.recvBind.ptrToVal else F.recvBind.same
 
-/-- the storage the body of the method works on, given the storage `inst` the operand designates.
-    Pointer receiver: that storage (the address is passed; whether the pointer itself is copied is
-    immaterial). Value receiver: a copy under Go's rules; under the interpreter's, what the arm of
-    the binding does — `dest.Set(x)` copies, `d[numRet] = x` makes the slot the caller's storage. -/
-def recvStorage (w : Who) (F : Facts) (D : Decls) (owner : Nat) (m : Meth) (srcPtr : Bool) (inst : Inst) (h : Heap) : Inst × Heap :=
+/-- one step of the binding applied to a struct value: a fresh copy, or the value itself -/
+def applyBind (b : SlotBind) (D : Decls) (owner : Nat) (inst : Inst) (h : Heap) : Inst × Heap :=
+  match b with
+  | .slot => (inst, h)
+  | _ => copyInst D owner inst h
+
+/-- first step, when the method value is made (`recv`): pointer receiver — the operand's storage (the
+    address is passed; whether the pointer itself is copied is immaterial); value receiver — a copy
+    under Go's rules ("the receiver is evaluated and copied when the method value is evaluated"),
+    what the arm does under the interpreter's -/
+def bindRecv (w : Who) (F : Facts) (D : Decls) (owner : Nat) (m : Meth) (srcPtr : Bool) (inst : Inst) (h : Heap) : Inst × Heap :=
   if m.ptr then (inst, h) else
   match w with
   | .go => copyInst D owner inst h
-  | .yaegi =>
-    (match valueArm F srcPtr with
-     | .slot => (inst, h)
-     | _ => copyInst D owner inst h)
+  | .yaegi => applyBind (valueArm F srcPtr) D owner inst h
+
+/-- second step, at every call: the receiver parameter of the new frame. Go: the bound value is
+    passed by value; the interpreter: `d[numRet].Set(recv)` copies, `d[numRet] = recv` does not -/
+def enterRecv (w : Who) (F : Facts) (D : Decls) (owner : Nat) (m : Meth) (r0 : Inst) (h : Heap) : Inst × Heap :=
+  if m.ptr then (r0, h) else
+  match w with
+  | .go => copyInst D owner r0 h
+  | .yaegi => applyBind F.recvBind.call D owner r0 h
+
+/-- the storage the body of the method works on in a call, given the storage `inst` the operand
+    designates: both steps -/
+def recvStorage (w : Who) (F : Facts) (D : Decls) (owner : Nat) (m : Meth) (srcPtr : Bool) (inst : Inst) (h : Heap) : Inst × Heap :=
+  enterRecv w F D owner m (bindRecv w F D owner m srcPtr inst h).1 (bindRecv w F D owner m srcPtr inst h).2
 
 /-- what a method body does to its receiver: a sequence of assignments to fields of the receiver
     (`r.p = v`, `r.p += d`; `p` an index path to an int field) -/
@@ -345,12 +366,19 @@ def stdBody (D : Decls) (owner : Nat) : List Write :=
   | some k => [.add [k] 1]
   | none => []
 
+/-- run the body on the receiver parameter `r` -/
+def runOn (D : Decls) (owner : Nat) (m : Meth) (r : Inst) (h1 : Heap) (s : St) : St :=
+  let h2 := runBody r (stdBody D owner) h1
+  emit { s with heap := h2 } ((typeName D owner ++ "." ++ m.name) :: values r h2)
+
+/-- call a method value whose receiver `r0` was bound when it was made -/
+def runBound (w : Who) (F : Facts) (D : Decls) (owner : Nat) (m : Meth) (r0 : Inst) (s : St) : St :=
+  runOn D owner m (enterRecv w F D owner m r0 s.heap).1 (enterRecv w F D owner m r0 s.heap).2 s
+
 /-- run method `m` of type `owner`, the operand designating the storage `inst`; `srcPtr`: the
     receiver operand is a pointer -/
 def runMeth (w : Who) (F : Facts) (D : Decls) (owner : Nat) (m : Meth) (srcPtr : Bool) (inst : Inst) (s : St) : St :=
-  let (r, h1) := recvStorage w F D owner m srcPtr inst s.heap
-  let h2 := runBody r (stdBody D owner) h1
-  emit { s with heap := h2 } ((typeName D owner ++ "." ++ m.name) :: values r h2)
+  runOn D owner m (recvStorage w F D owner m srcPtr inst s.heap).1 (recvStorage w F D owner m srcPtr inst s.heap).2 s
 
 /-- `t`, `opPtr`: struct type of the operand and whether the operand is a pointer to it -/
 def runHit (w : Who) (F : Facts) (D : Decls) (h : MHit) (t : Nat) (opPtr : Bool) (recv : Inst) (s : St) : St :=
@@ -386,7 +414,7 @@ def dynCall (w : Who) (F : Facts) (D : Decls) (d : Option Dyn) (m : String) (isi
   | some d =>
     (match w with
      | .yaegi =>
-       (match lookupMethodY D d.t m with
+       (match lookupMethodY F D d.t m with
         | some h => let s1 := runHit w F D h d.t d.ptr d.inst s; if isig == 1 && h.meth.sig == 0 then panic s1 else s1
         | none => panic s)
      | .go => (match select D d.t m with | .method h => runHit w F D h d.t d.ptr d.inst s | _ => panic s))
@@ -439,17 +467,39 @@ def isTyped : TyRef → Bool
   | _ => true
 
 /-- box a struct operand into an interface value -/
-def box (w : Who) (D : Decls) (typed : Bool) (t : Nat) (isPtr : Bool) (inst : Inst) (s : St) : Dyn × St :=
+def box (w : Who) (F : Facts) (D : Decls) (typed : Bool) (t : Nat) (isPtr : Bool) (inst : Inst) (s : St) : Dyn × St :=
   match w with
   | .go =>
     if isPtr then (⟨t, true, inst, true⟩, s)
     else let (c, h) := copyInst D t inst s.heap; (⟨t, false, c, true⟩, { s with heap := h })
   | .yaegi =>
-    -- genDestValue: wrapped in a valueInterface (which keeps the operand's own storage) unless the
-    -- destination is interface{} and the operand's type has no method attached to it
+    -- genDestValue: wrapped in a valueInterface unless the destination is interface{} and the
+    -- operand's type has no method attached to it; genValueInterface: the valueInterface holds a copy
+    -- of an addressable operand since 16a5ac7 (`F.ifaceCopies`), the operand's own storage before
     let wrapped := typed || (methsOf D t).any (fun m => !isPtr || m.ptr)
-    if isPtr || wrapped then (⟨t, isPtr, inst, wrapped⟩, s)
+    if isPtr || (wrapped && !F.ifaceCopies) then (⟨t, isPtr, inst, wrapped⟩, s)
+    else if wrapped then let (c, h) := copyInst D t inst s.heap; (⟨t, false, c, true⟩, { s with heap := h })
     else let (c, h) := copyInst D t inst s.heap; (⟨t, false, c, false⟩, { s with heap := h })
+
+/-- does the assertion `y.(ty)` hold for the value `d` of the interface operand.
+    Go: `matchG`. The interpreter, `typeAssert`: to an interface type (`case isInterfaceSrc(typ)`) — a
+    nil operand (bf66b2a) and a value that is not wrapped in a valueInterface are not ok, a wrapped
+    one is ok when the names and signature strings of methods() of its type cover the interface (the
+    one-result form panics on every failure since 4cc5cf9, the value is stored whatever the operand
+    type since c2466b4); to a struct or pointer type — identity of the dynamic type. -/
+def assertOk (w : Who) (D : Decls) (d : Option Dyn) (ty : TyRef) : Bool :=
+  match w with
+  | .go => matchG D (dynT d) ty
+  | .yaegi =>
+    if tyIsIface D ty then
+      (match d with
+       | none => false
+       | some dd => dd.wrapped && matchIfaceY D dd ty)
+    else
+      (match ty, d with
+       | .ptr t, some dd => dd.t == t && dd.ptr
+       | .named t, some dd => dd.t == t && !dd.ptr
+       | _, _ => false)
 
 def execStmt (w : Who) (F : Facts) (D : Decls) (se : SEnv) (s : St) : Stmt → St
   | .var x t base => let (i, h) := newInst D t base s.heap; bind { s with heap := h } x (.strct t i)
@@ -471,16 +521,18 @@ def execStmt (w : Who) (F : Facts) (D : Decls) (se : SEnv) (s : St) : Stmt → S
         (match sel w F D t m with
          | .method h =>
            let sub := subInst i h.path
-           -- Go: a value receiver is copied when the method value is evaluated
-           if w == .go && !h.meth.ptr then
-             let (c, hp) := copyInst D h.owner sub s1.heap
-             bind { s1 with heap := hp } x (.fn (.meth ⟨h.owner, [], h.meth⟩ c false))
-           else bind s1 x (.fn (.meth ⟨h.owner, [], h.meth⟩ sub (srcIsPtr D t (recvIsPtr r) h.path)))
+           let sp := srcIsPtr D t (recvIsPtr r) h.path
+           -- Go, and the interpreter since 3081633: the receiver is bound when the method value is evaluated
+           if w == .go || F.recvBind.atCreation then
+             let b := bindRecv w F D h.owner h.meth sp sub s1.heap
+             bind { s1 with heap := b.2 } x (.fn (.meth ⟨h.owner, [], h.meth⟩ b.1 sp true))
+           else bind s1 x (.fn (.meth ⟨h.owner, [], h.meth⟩ sub sp false))
          | .field fh => bind s1 x (.fn (.fld fh.owner fh.field.name))
          | _ => panic s1)
       | none => panic s)
   | .callf x => (match look s x with
-      | some (.fn (.meth h i sp)) => runHit w F D h h.owner sp i s
+      | some (.fn (.meth h i sp bound)) =>
+        if bound then runBound w F D h.owner h.meth i s else runHit w F D h h.owner sp i s
       | some (.fn (.fld o n)) => emit s [typeName D o ++ ".f." ++ n]
       | _ => panic s)
   | .mexpr t isPtr m y => (match look s y with
@@ -509,40 +561,21 @@ def execStmt (w : Who) (F : Facts) (D : Decls) (se : SEnv) (s : St) : Stmt → S
     (match r with
      | .nil => bind s x (.ifc none)
      | .var v => (match look s v with
-        | some (.strct t i) => let (d, s1) := box w D typed t false i s; bind s1 x (.ifc (some d))
+        | some (.strct t i) => let (d, s1) := box w F D typed t false i s; bind s1 x (.ifc (some d))
         | _ => panic s)
      | .addr v => (match look s v with
-        | some (.strct t i) => let (d, s1) := box w D typed t true i s; bind s1 x (.ifc (some d))
+        | some (.strct t i) => let (d, s1) := box w F D typed t true i s; bind s1 x (.ifc (some d))
         | _ => panic s)
      | .ptrvar p => (match look s p with
-        | some (.ptr t i) => let (d, s1) := box w D typed t true i s; bind s1 x (.ifc (some d))
+        | some (.ptr t i) => let (d, s1) := box w F D typed t true i s; bind s1 x (.ifc (some d))
         | _ => panic s)
      | _ => panic s)
   | .assert x y ty two m =>
-    let typed := match slook se y with | some (.ifc src) => isTyped src | _ => true
     (match look s y with
      | some (.ifc d) =>
-       -- outcome: `some true` ok, `some false` not ok, `none` the interpreter fails on the spot
-       let (ok, quiet) : Option Bool × Bool :=
-         match w with
-         | .go => (some (matchG D (dynT d) ty), false)
-         | .yaegi =>
-           if tyIsIface D ty then
-             (match d with
-              | none => if typed then (none, false) else (some false, false)
-              | some dd =>
-                if !dd.wrapped then (some false, false)
-                else if matchIfaceY D dd ty then (if typed then (some true, false) else (none, false))
-                else (some false, (methodsY D dd.t).length ≥ (ifaceNamesY D ty).length))
-           else (some (match ty, d with
-                  | .ptr t, some dd => dd.t == t && dd.ptr
-                  | .named t, some dd => dd.t == t && !dd.ptr
-                  | _, _ => false), false)
-       (match ok with
-        | none => panic s
-        | some b =>
-          -- the one-result form panics on failure, except on the interpreter's quiet path
-          if !b && !two && !quiet then panic s else
+       let b := assertOk w D d ty
+       -- the one-result form panics on failure
+       (if !b && !two then panic s else
           let s1 := if two then emit s ["ok", toString b] else emit s ["asserted"]
           let (v, s2) : Val × St :=
             if !b then (.zero, s1) else
